@@ -268,6 +268,17 @@ def worker(task):
                         backend = f"z3-5.1.0 (small-scope expansion, K={K})"
                         break
                     rec["small_scope"] = r2
+                    if r2 == "unsat" and K == SCOPE_K:
+                        # the unrolled, quantifier-free version has no counterexample; if the
+                        # scope restrictions themselves follow from the hypotheses (e.g. lists of
+                        # concrete length), the unrolling is complete and this is a proof
+                        asm = cexs[K][5]
+                        r3, dt3, _, _ = check(tuple(co.pc), z3.And(*asm) if asm else z3.BoolVal(True), min(timeout_ms, 30000))
+                        dt += dt3
+                        if r3 == "unsat":
+                            r = "unsat"
+                            backend = f"z3-5.1.0 (complete unrolling, K={K})"
+                            break
                 except Exception as e:
                     rec["small_scope"] = f"error: {e}"
         if r == "unknown" and long_pending:
